@@ -289,8 +289,34 @@ func genApplier(g *gen, n int, tier string, w *bufio.Writer) {
 		case x == 11:
 			kind = "codec"
 		}
+		if c%200 == 50 && (tier == "thorough" || g.chance(1, 3)) {
+			kind = "bigsel" // RARE: a backlog whose key+value bytes exceed the response byte cap (8 MiB): the selection is cut by bytes
+		}
 		fmt.Fprintf(w, "# case %d %s\n", c, kind)
 		switch kind {
+		case "bigsel":
+			nlog := 9 + g.intn(8)
+			parts := []string{"log", "0", "rec", strconv.Itoa(nlog)}
+			for i := 0; i < nlog; i++ {
+				sz := 700000 + g.intn(900000)
+				if g.chance(1, 5) {
+					sz = g.intn(2000)
+				}
+				if i == 0 && g.chance(1, 4) {
+					sz = 9000000 + g.intn(500000) // the first entry alone exceeds the cap: it must still be sent
+				}
+				parts = append(parts, strconv.Itoa(i+1), "1", hx([]byte(fmt.Sprintf("big%02d", i))), fmt.Sprintf("*%d:%02x", sz, 0x41+i))
+			}
+			fmt.Fprintln(w, strings.Join(parts, " "))
+			fmt.Fprintln(w, "select 1")
+			for r := 0; r < 4; r++ {
+				fmt.Fprintln(w, g.pickS("poll exp", "poll ack", "poll exp"))
+				fmt.Fprintln(w, "ack")
+				if g.chance(1, 3) {
+					fmt.Fprintf(w, "select %d\n", 1+g.intn(nlog))
+				}
+			}
+			fmt.Fprintln(w, "counters")
 		case "valid", "cut", "engine":
 			nlog := 5 + g.intn(40)
 			steps := 6 + g.intn(22)
